@@ -534,7 +534,9 @@ func randomText(cfg *hx.Config, maxAtoms int, tabs bool) string {
 			b.WriteString(breaks[cfg.Rand.Intn(len(breaks))])
 		default:
 			if tabs {
-				b.WriteString("\t")
+				// a tab inside an unbreakable word (tab + closing punctuation) is outside the
+				// model: ctx.Characters rewrites it to eight spaces; keep a letter after it
+				b.WriteString("\ta")
 			} else {
 				b.WriteString(" ")
 			}
